@@ -51,6 +51,16 @@ class Facts:
     def find_fns(self, pred):
         return [f for f in self.d["fns"] if pred(f)]
 
+    def impl_fn(self, trait_def, self_prefix, method):
+        """method of `impl <trait_def> for <self_prefix...>` — by structure, not by printed path"""
+        for f in self.d["fns"]:
+            if f.get("impl_trait_def") == trait_def and (f.get("impl_self") or "").startswith(self_prefix) and f["def"].endswith("::" + method):
+                return f
+        return None
+
+    def impl_fns(self, trait_def, self_prefix=""):
+        return [f for f in self.d["fns"] if f.get("impl_trait_def") == trait_def and (f.get("impl_self") or "").startswith(self_prefix)]
+
     def owns_of(self, def_path, kind=None):
         for o in self.owns:
             if o["def"] == def_path and (kind is None or o["kind"] == kind):
